@@ -767,7 +767,11 @@ SPEC = {
             'outline items whose Dest / A.D is an indirect object that is a reference to itself, a 2- or 3-cycle of references, a tail into a cycle, a '
             'chain of 0..200 reference objects (126..130 around DEREF_LIMIT) ending in a destination array / name / wrong kind, or dangling; '
             'outline items with Titles of 0..9 bytes (every 0/1/2/3-byte shape of the byte-order-mark tests, literal and hexadecimal, direct, '
-            'indirect, through a named destination) whose destination is a page of the page tree (28 fixed members of both families in every run); every query is called for '
+            'indirect, through a named destination) whose destination is a page of the page tree (28 fixed members of both families in every run); '
+            'pages (in the page tree) whose Contents is an indirect array that lists itself 1..5 times, arrays listing each other (2-4 cycle), arrays of '
+            'arrays with fan-out 1-3 and depth 1..200 (at, below and above DEREF_LIMIT), reference chains of 0..129 links into a self-listing array, '
+            'reached directly / inside a direct array / through a reference object, with real streams beside, inside and below the arrays '
+            '(27 fixed members + 24 random per quick run); every query is called for '
             'every object id plus a dangling one; non-trivial = all; distinct = distinct case text',
     'extra_trusted': ['C13: worker isolation (child process per case, 4 s wall-clock per query group) decides hang/abort; '
                       'panic classes are read from the panic message',
